@@ -298,6 +298,13 @@ func runC06History(r *mon.Run, stream uint64) {
 		return
 	}
 	r.Count("linear_wallet_comparisons", 1)
+	for x := a.Tip; x != nil; x = x.Parent {
+		for _, k := range x.Kinds {
+			if k == "v2-revised-and-renewed-in-one-block" {
+				r.Count("best_chain_blocks_revising_and_renewing_one_contract", 1)
+			}
+		}
+	}
 	r.Count("reverts_of_blocks_the_address_only_passed_through", d.passThroughReverts)
 	r.Eval()
 	r.Count("reorgs_observed", a.Reorgs)
@@ -346,6 +353,7 @@ func runC06(r *mon.Run, replay string) {
 	r.Floor("wallet_audits", 1000)
 	r.Floor("chunks_ending_on_revert", 50)
 	r.Floor("reverts_of_blocks_the_address_only_passed_through", 15)
+	r.Floor("best_chain_blocks_revising_and_renewing_one_contract", 15)
 	r.Floor("linear_wallet_comparisons", 100)
 	for _, k := range []string{wallet.EventTypeMinerPayout, wallet.EventTypeV1Transaction, wallet.EventTypeV2Transaction, wallet.EventTypeV1ContractResolution, wallet.EventTypeV2ContractResolution, wallet.EventTypeSiafundClaim, wallet.EventTypeFoundationSubsidy} {
 		r.Floor("event:"+k, 10)
